@@ -125,6 +125,24 @@ func c04Input(c *wk.Case) (string, string) {
 		}
 		return sb.String(), fmt.Sprintf("scoped-nesting-%d", d)
 	}
+	if c.Index%32 == 7 {
+		// calls whose callee is an expression (not a name) that may itself fail to compile: the error path of the
+		// code generator builds its message from the registered functions
+		callee := []string{"[1]", "a[1]", "{b:1}", "(a+1)", "1", "\"s\"", "a.b", "f(1)", "[f(1,2)]", "[sin(1,2)]", "[sqr(1,2)]", "-a", "(x->x)", "[x->x][0]", "{f:x->x}.f", "a(1)", "[unknownName]",
+			"[1,", "sqr", "[sqr]", "(if a then b else c)", "[a&b]", "true", "[true]", "(a b)", "2a", "[!a]"}[r.IntN(27)]
+		args := []string{"(2)", "()", "(1,2)", "(2)(3)", "(unknownArg)", "(let q=1; q)", "(f(,))", "(a)", "(true)", "(2)+1", "(sqr(1,2))"}[r.IntN(11)]
+		pre := []string{"", "1+", "let q=", "a*", "!", "if a then ", "func g(x) "}[r.IntN(7)]
+		post := ""
+		switch pre {
+		case "let q=":
+			post = "; q"
+		case "if a then ":
+			post = " else b"
+		case "func g(x) ":
+			post = "; g(1)"
+		}
+		return pre + callee + args + post, "callee-expression"
+	}
 	if c.Index%32 == 31 {
 		cands := c04FoldCandidates()
 		c.Count("fold_time_panic_candidates_on_this_tree", 0)
